@@ -87,6 +87,149 @@ def env1 (now : Int) : Env := { now := now, recs := [(3, 0)] }
 
 def tenBytes : Bytes := [48, 49, 50, 51, 52, 53, 54, 55, 56, 57]
 
+/-! ### the write cache over whole histories (refinement to the byte array) -/
+
+/-- the calls a client can make on a handle in write mode -/
+inductive WOp
+  | write (p : Bytes)
+  | read (n : Nat)
+  | seek (off whence : Int)
+  | truncate (size : Int)
+
+/-- what the client sees from one call -/
+inductive WOut
+  | wrote (n : Nat)
+  | bytes (b : Bytes)
+  | offset (o : Int)
+  | done
+  | einval
+deriving DecidableEq
+
+/-- one call on the cache state `(buf, cur)`, as `hWrite`/`hRead`/`hSeekNoLock`/`hTruncate` drive the cores -/
+def cacheStep (st : Bytes × Nat) : WOp → (Bytes × Nat) × WOut
+  | .write p => ((writeAt st.1 st.2 p, st.2 + p.length), .wrote p.length)
+  | .read n => ((st.1, (cacheRead st.1 st.2 n).2.1), .bytes (cacheRead st.1 st.2 n).1)
+  | .seek off wh => match cacheSeek st.1 st.2 off wh with
+      | some (c, a) => ((st.1, c), .offset a)
+      | none => (st, .einval)
+  | .truncate size => match cacheTruncate st.1 st.2 size with
+      | some (b, c) => ((b, c), .done)
+      | none => (st, .einval)
+
+/-- the same call on the reference -/
+def refStep (b : ByteFile.BF) : WOp → ByteFile.BF × WOut
+  | .write p => ((ByteFile.write b p).1, .wrote (ByteFile.write b p).2.2)
+  | .read n => ((ByteFile.read b n).1, .bytes (ByteFile.read b n).2.2)
+  | .seek off wh => match ByteFile.seek b off wh with
+      | (b', .ok, a) => (b', .offset a)
+      | (_, _, _) => (b, .einval)
+  | .truncate size => match ByteFile.truncate b size with
+      | (b', .ok) => (b', .done)
+      | (_, _) => (b, .einval)
+
+/-- the region outside finding F23: no `Truncate` beyond the current length -/
+def noGrow (st : Bytes × Nat) : WOp → Bool
+  | .truncate size => size ≤ st.1.length
+  | _ => true
+
+def runCache (st : Bytes × Nat) : List WOp → (Bytes × Nat) × List WOut
+  | [] => (st, [])
+  | op :: ops => let r := cacheStep st op; let rest := runCache r.1 ops; (rest.1, r.2 :: rest.2)
+
+def runRef (b : ByteFile.BF) : List WOp → ByteFile.BF × List WOut
+  | [] => (b, [])
+  | op :: ops => let r := refStep b op; let rest := runRef r.1 ops; (rest.1, r.2 :: rest.2)
+
+def allNoGrow (st : Bytes × Nat) : List WOp → Bool
+  | [] => true
+  | op :: ops => noGrow st op && allNoGrow (cacheStep st op).1 ops
+
+/-- a reference file that is open read-write without O_APPEND and mirrors the cache -/
+def Mirrors (st : Bytes × Nat) (b : ByteFile.BF) : Prop :=
+  b.data = st.1 ∧ b.pos = st.2 ∧ b.canRead = true ∧ b.canWrite = true ∧ b.append = false
+
+theorem seek_flags (d : Bytes) (p : Nat) (cr cw ap dt : Bool) (off wh : Int) :
+    ByteFile.seek { data := d, pos := p, canRead := cr, canWrite := cw, append := ap, dirty := dt } off wh =
+      ({ data := d, pos := (ByteFile.seek { data := d, pos := p } off wh).1.pos, canRead := cr, canWrite := cw, append := ap, dirty := dt },
+       (ByteFile.seek { data := d, pos := p } off wh).2.1, (ByteFile.seek { data := d, pos := p } off wh).2.2) := by
+  unfold ByteFile.seek
+  simp only
+  split
+  · rfl
+  · split <;> rfl
+
+theorem step_refines (st : Bytes × Nat) (b : ByteFile.BF) (hm : Mirrors st b) (op : WOp) (hg : noGrow st op = true) :
+    (cacheStep st op).2 = (refStep b op).2 ∧ Mirrors (cacheStep st op).1 (refStep b op).1 := by
+  obtain ⟨hd, hp, hr, hw, ha⟩ := hm
+  obtain ⟨buf, cur⟩ := st
+  obtain ⟨d, p, cr, cw, ap, dt⟩ := b
+  simp only at hd hp hr hw ha
+  subst hd hp hr hw ha
+  cases op with
+  | write q =>
+    simp [cacheStep, refStep, ByteFile.write, Mirrors, cache_write_eq]
+  | read n =>
+    have h := read_in_write_mode d p n
+    simp only [ByteFile.read, Bool.not_true, Bool.false_eq_true, if_false] at h
+    simp [cacheStep, refStep, ByteFile.read, Mirrors, h.1, h.2.1]
+  | seek off wh =>
+    have h := seek_in_write_mode d p off wh
+    simp only [cacheStep, refStep]
+    rw [seek_flags]
+    cases hc : cacheSeek d p off wh with
+    | none =>
+      rw [hc] at h
+      generalize ByteFile.seek { data := d, pos := p } off wh = x at h ⊢
+      obtain ⟨b', r, a'⟩ := x
+      simp only at h
+      subst h
+      simp [Mirrors]
+    | some ca =>
+      obtain ⟨c, a⟩ := ca
+      rw [hc] at h
+      generalize ByteFile.seek { data := d, pos := p } off wh = x at h ⊢
+      obtain ⟨b', r, a'⟩ := x
+      simp only at h
+      obtain ⟨h1, h2, h3⟩ := h
+      subst h1 h2 h3
+      simp [Mirrors]
+  | truncate size =>
+    simp only [noGrow, decide_eq_true_eq] at hg
+    simp only [cacheStep, refStep]
+    by_cases hneg : size < 0
+    · have hc : cacheTruncate d p size = none := by
+        unfold cacheTruncate
+        have : ¬ size > (d.length : Int) := by omega
+        simp [this, hneg]
+      simp [hc, ByteFile.truncate, hneg, Mirrors]
+    · have h0 : 0 ≤ size := by omega
+      have ht := truncate_shrink d p size h0 hg
+      rw [ht]
+      have hle : size.toNat ≤ d.length := by omega
+      simp [ByteFile.truncate, hneg, hle, Mirrors]
+
+/-- (7) Refinement over whole histories: for every sequence of Write / Read / Seek / Truncate
+    calls on a handle in write mode that never truncates beyond the current length (the region
+    of finding F23), every call shows the client exactly what the byte-array reference shows,
+    and the cache content and cursor stay the reference's. -/
+theorem write_mode_refines_bytefile (ops : List WOp) (st : Bytes × Nat) (b : ByteFile.BF) (hm : Mirrors st b)
+    (hg : allNoGrow st ops = true) :
+    (runCache st ops).2 = (runRef b ops).2 ∧ Mirrors (runCache st ops).1 (runRef b ops).1 := by
+  induction ops generalizing st b with
+  | nil => exact ⟨rfl, hm⟩
+  | cons op ops ih =>
+    simp only [allNoGrow, Bool.and_eq_true] at hg
+    obtain ⟨h1, h2⟩ := step_refines st b hm op hg.1
+    obtain ⟨i1, i2⟩ := ih (cacheStep st op).1 (refStep b op).1 h2 hg.2
+    simp only [runCache, runRef]
+    exact ⟨by rw [h1, i1], i2⟩
+
+/-- non-vacuity: a concrete history with overwrites, a hole, reads at and beyond the end, all
+    three whences and a shrinking truncate -/
+example :
+    let ops := [WOp.write [1, 2, 3], .seek 5 0, .write [9], .seek (-2) 2, .read 10, .seek 0 1, .truncate 2, .read 1, .seek (-1) 1, .read 5]
+    allNoGrow ([], 0) ops = true ∧ (runCache ([], 0) ops).2 = (runRef { canWrite := true } ops).2 := by decide
+
 /-- a file `/f` holding `0123456789`, opened read-only as handle 2 -/
 def sF23 : Sys :=
   ({} : Sys).runAll {} [(env1 1, .init (n!"/") 511), (env1 2, .create 1 (n!"/f")),
